@@ -114,6 +114,9 @@ def generate(tier, seed, work, stats):
     cases = grammar_cases(tier, seed, work, stats, families(tier), POOLS)
     for prods in random_grammars(1500 if tier == "quick" else 20000, seed + 8):
         cases.append(dict(prods=prods, vpool="upper", tpool="ab", family="random"))
+    # helper-name look-alikes for both kinds of helper variables of the normal form (terminal C, long bodies)
+    for prods in random_grammars(600 if tier == "quick" else 8000, seed + 80, maxp=5, maxb=4):
+        cases.append(dict(prods=prods, vpool="freshC", tpool="Cterm", family="random-helper-names"))
     for c in cases:
         c["L"] = L(tier)
     cases += [c for c in core.record_tests(["/repo/pyformlang"], work, {"contains", "generate_epsilon"}, stats) if "G" in c["recorded"][0]]
